@@ -185,3 +185,29 @@ def c04_cp(lat, lwl, loads, edges):
         best[j] = max(c)
     want = max(best[i] + lwl[i] for i in range(n))
     return abs(got - want) > 1e-9, f"get_critical_path total {got} (lines {[x.line_number for x in cp]}), longest chain {want}; lat={lat} lwl={lwl} loads={loads} edges={edges}"
+
+
+@replay
+def c05_offset(lines):
+    import networkx as nx
+    from osaca.semantics.kernel_dg import KernelDG
+    from osaca.parser import InstructionForm
+    kernel = []
+    for i, l in enumerate(lines):
+        f = InstructionForm(mnemonic="op", line_number=l, line=f"op{i}"); f.latency = 1.0; f.latency_wo_load = 1.0; f.flags = []
+        f.semantic_operands = {"source": [], "destination": [], "src_dst": []}
+        kernel.append(f)
+    k = object.__new__(KernelDG); k.kernel = kernel; k.model = None; k.arch_sem = None; k.parser = None; k.timed_out = False
+    seen = {}
+    def create_DG(kern, flag_dependencies=False):
+        seen["ids"] = [x.line_number for x in kern]
+        g = nx.DiGraph(); [g.add_node(x.line_number) for x in kern]
+        return g
+    k.create_DG = create_DG
+    try:
+        k.check_for_loopcarried_dep(kernel, -1, False)
+    except Exception as e:
+        return True, f"check_for_loopcarried_dep raised {e!r} for lines {lines}"
+    ids = seen["ids"]; n = len(lines); off = ids[n] - lines[0]
+    bad = not (all(ids[i] < off <= ids[n + i] for i in range(n)) and len(set(ids)) == 2 * n)
+    return bad, f"doubled kernel ids {ids} for lines {lines} (offset {off})"
